@@ -83,10 +83,178 @@ type C14Case struct {
 	Root2    []*TNode   `json:"root2,omitempty"`
 	Files2   []*C14File `json:"files2,omitempty"`
 	History  []C14Step  `json:"history,omitempty"`
+	// a second, self-contained oracle by construction (see c14Inline)
+	Loop *C14Loop `json:"loop,omitempty"`
 	// failing execution
 	FaultJ     int    `json:"fault_call"` // -1: no injected fault
 	FaultErrno string `json:"fault_errno,omitempty"`
 	AtStep     int    `json:"at_history_step"` // 0 = initial render
+}
+
+// C14Loop: an include inside a loop whose file only READS variables. By construction
+// the render must equal the render of the same root with the file's content written in
+// the include's place ("inserts exactly the output that rendering that file's content
+// directly would give", "with the includer's current variables" -- here including the
+// loop's own: the loop variable, forloop.*, the cycle state). Unlike the other C14
+// oracles this one does not use the library to compute the expectation of the included
+// part in isolation, so code that the include path and a direct render share cannot
+// hide behind it.
+type C14Loop struct {
+	Pre    []*TNode `json:"pre"`
+	Head   string   `json:"head"`            // "for it in nums" / "tablerow it in arr cols: 2"
+	Outer  string   `json:"outer,omitempty"` // an enclosing loop head, or ""
+	Body1  []*TNode `json:"body1"`
+	Body2  []*TNode `json:"body2"`
+	Post   []*TNode `json:"post"`
+	File   []*TNode `json:"file"`
+	Arg    string   `json:"arg"`
+	Cached bool     `json:"cached,omitempty"`
+}
+
+func genC14Loop(r *Rng, env *Env) *C14Loop {
+	l := &C14Loop{Cached: r.Chance(0.3)}
+	g := NewGen(r.Fork(1), r.Range(2, 10))
+	for _, f := range []string{"trim", "errors", "breaks"} {
+		delete(g.feat, f)
+	}
+	g.feat["cycle"] = true
+	sc := scopeOf(env)
+	g.env = env
+	l.Pre = g.Nodes(sc, 1, 2)
+	if r.Chance(0.5) {
+		l.Pre = append(l.Pre, &TNode{K: "tag", S: "assign zz = " + g.scalarExpr(sc)})
+	}
+	name := pick(r, []string{"for", "for", "tablerow"})
+	l.Head = name + " it in " + g.arrayExpr(sc)
+	if r.Chance(0.3) {
+		l.Head += " limit: " + fmt.Sprint(r.Range(1, 4))
+	}
+	if r.Chance(0.2) {
+		l.Head += " reversed"
+	}
+	if name == "tablerow" && r.Chance(0.6) {
+		l.Head += " cols: " + fmt.Sprint(r.Range(1, 3))
+	}
+	if r.Chance(0.25) {
+		l.Outer = "for ot in (1.." + fmt.Sprint(r.Range(1, 3)) + ")"
+	}
+	inner := sc.clone()
+	inner.anys = append(inner.anys, "it", "it[0]", "it.name", "it.Title", "zz", "forloop.index", "forloop.rindex0", "forloop.first", "forloop.length")
+	g.loop, g.loopVars = 1, []string{"it"}
+	l.Body1 = g.Nodes(inner, 2, 2)
+	l.Body2 = g.Nodes(inner, 2, 2)
+	// the file: nodes that only read
+	fg := NewGen(r.Fork(2), r.Range(2, 12))
+	for _, f := range []string{"trim", "errors", "breaks"} {
+		delete(fg.feat, f)
+	}
+	fg.feat["cycle"], fg.feat["nest"] = true, true
+	fg.ReadOnly, fg.env = true, env
+	fg.loop, fg.loopVars = 1, []string{"it"}
+	l.File = fg.Nodes(inner, 1, 5)
+	if r.Chance(0.6) {
+		l.File = append(l.File, &TNode{K: "tag", S: "cycle " + quote(pick(r, []string{"odd", "a", "x"})) + ", " + quote(pick(r, []string{"even", "b"})) + pick(r, []string{"", `, "third"`})})
+	}
+	if r.Chance(0.6) {
+		l.File = append(l.File, &TNode{K: "obj", S: pick(r, []string{"forloop.index", "forloop.rindex", "forloop.last", "forloop.length", "it", "zz", "forloop.index0"})})
+	}
+	l.Arg = pick(r, []string{`"lp.html"`, `"./lp.html"`, `"lp" | append: ".html"`})
+	g.loop, g.loopVars = 0, nil
+	l.Post = g.Nodes(sc, 1, 2)
+	// Text that ends in "{" (or "%", "}") joins the next tag's delimiter into another token;
+	// where the joins fall differs between the two spellings of the root. Not the subject here.
+	var clean func(ns []*TNode)
+	clean = func(ns []*TNode) {
+		for _, n := range ns {
+			if n.K == "text" || n.K == "raw" || n.K == "comment" {
+				n.S = strings.NewReplacer("{", "(", "}", ")", "%", "#").Replace(n.S)
+			}
+			clean(n.C)
+			for _, cl := range n.Cl {
+				clean(cl.C)
+			}
+		}
+	}
+	for _, ns := range [][]*TNode{l.Pre, l.Body1, l.Body2, l.Post, l.File} {
+		clean(ns)
+	}
+	return l
+}
+
+// trees builds the root with the include (a) and with the content inlined (b).
+func (l *C14Loop) trees() (a, b []*TNode) {
+	mk := func(mid []*TNode) []*TNode {
+		body := append(append(append([]*TNode{}, l.Body1...), mid...), l.Body2...)
+		loop := &TNode{K: "block", S: l.Head, C: body}
+		if l.Outer != "" {
+			loop = &TNode{K: "block", S: l.Outer, C: []*TNode{loop}}
+		}
+		return append(append(append([]*TNode{}, l.Pre...), loop), l.Post...)
+	}
+	return mk([]*TNode{{K: "tag", S: "include " + l.Arg}}), mk(l.File)
+}
+
+func c14Inline(c *Ctx, cs *C14Case, scratch, tag string, out *CaseOut) *c14Fail {
+	l := cs.Loop
+	cs.Cfg.apply()
+	dir := filepath.Join(scratch, "fsroot", fmt.Sprintf("p%d", os.Getpid()), tag+"-inl")
+	os.RemoveAll(dir)
+	if err := os.MkdirAll(dir, 0o755); err != nil {
+		fatal("mkdir: %v", err)
+	}
+	defer os.RemoveAll(dir)
+	ta, tb := l.trees()
+	wrapIncludes, includeMode = true, 1
+	srcA, srcB, srcF := Source(ta), Source(tb), Source(l.File)
+	includeMode = 0
+	simrt.SetMapOrder(simrt.OrderAsc, 0)
+	simrt.SetClock(t0)
+	render := func(src string, withFile bool) Res {
+		e := NewEngine(cs.Cfg)
+		fp := filepath.Join(dir, "lp.html")
+		os.Remove(fp)
+		if withFile {
+			if l.Cached {
+				if r := guard(func() Res {
+					if _, err := e.ParseTemplateAndCache([]byte(srcF), fp, 1); err != nil {
+						return errRes(err, "parse")
+					}
+					return Res{OK: true}
+				}); !r.OK {
+					return r
+				}
+			} else if err := os.WriteFile(fp, []byte(srcF), 0o644); err != nil {
+				fatal("write: %v", err)
+			}
+		}
+		p := ParseLoc(e, src, filepath.Join(dir, "root.html"), 1)
+		if p.T == nil {
+			return p.Err
+		}
+		return Run(EPRender, e, p.T, "", cs.Env.Build(nil), nil)
+	}
+	rb := render(srcB, false)
+	out.Evals++
+	if c != nil {
+		c.logf("inline: %s", rb.Key())
+	}
+	if !rb.OK {
+		if c != nil {
+			c.count("inline_oracle_skipped_inlined_render_fails", 1)
+		}
+		return nil
+	}
+	ra := render(srcA, true)
+	out.Evals++
+	if c != nil {
+		c.logf("include-in-loop: %s", ra.Key())
+		c.count("inline_oracle_compared", 1)
+	}
+	if ra.Key() == rb.Key() {
+		return nil
+	}
+	return &c14Fail{clause: "include-equals-inlined", sig: "include-equals-inlined", j: -1,
+		detail: fmt.Sprintf("root %q with lp.html = %q gives %s, but the same root with that content written in place of the include tag gives %s (the file only reads variables: the two must agree)", srcA, srcF, clip(ra.Key()), clip(rb.Key()))}
 }
 
 func genC14(seed uint64, r *Rng, idx, vecs int) *C14Case {
@@ -137,7 +305,9 @@ func genC14(seed uint64, r *Rng, idx, vecs int) *C14Case {
 			fmt.Sprintf("incp%d", i), fmt.Sprintf("incd%d", i), quote("y//../" + f.Rel), fmt.Sprintf("pg%d.Sidebar", i),
 			fmt.Sprintf("inc%d | pathof", i), quote(f.Rel) + " | pathof",
 			// the argument wrapped over two lines
-			quote(f.Rel) + "\n  | append: \"\"", fmt.Sprintf("inc%d\n| pathof", i)}
+			quote(f.Rel) + "\n  | append: \"\"", fmt.Sprintf("inc%d\n| pathof", i),
+			// a filter whose Go result is a []byte (the value of a filtered expression is then a string)
+			fmt.Sprintf("inc%d | bytesof", i), quote(f.Rel) + " | bytesof"}
 	}
 	argsFor := func(i int) []string {
 		as := argsFor0(i)
@@ -268,6 +438,9 @@ func genC14(seed uint64, r *Rng, idx, vecs int) *C14Case {
 		if r.Chance(0.5) {
 			cs.History = append(cs.History, C14Step{Op: "switch-root"})
 		}
+	}
+	if idx%3 == 0 {
+		cs.Loop = genC14Loop(r.Fork(91), cs.Env)
 	}
 	return cs
 }
@@ -457,11 +630,13 @@ func c14Setup(cs *C14Case, scratch string, tag string) (*c14Run, Res) {
 		return string(out), nil
 	})
 	x.eng.RegisterFilter("pathof", func(s string) string { return s })
+	x.eng.RegisterFilter("bytesof", func(s string) []byte { return []byte(s) })
 	// another engine of the same process registers OTHER source for the same paths and
 	// defines the same filter name differently
 	x.other = NewEngine(cs.Cfg)
 	registerSnap(x.other)
 	x.other.RegisterFilter("pathof", func(s string) string { return "other-engine/" + s })
+	x.other.RegisterFilter("bytesof", func(s string) []byte { return []byte("other-engine/" + s) })
 	x.b = cs.Env.Build(nil)
 	type placed struct {
 		f *C14File
@@ -1019,6 +1194,16 @@ func c14Find(c *Ctx, cs *C14Case, scratch, tag string, out *CaseOut, wantSig str
 	defer x.cleanup()
 	var fails []c14Fail
 	seen := map[string]bool{}
+	if cs.Loop != nil && (wantSig == "" || wantSig == "include-equals-inlined") {
+		if f := c14Inline(c, cs, scratch, tag, out); f != nil {
+			seen[f.sig] = true
+			fails = append(fails, *f)
+			if wantSig != "" {
+				return fails
+			}
+		}
+		wrapIncludes, includeMode = true, 0
+	}
 	record := func(o *c14Out, j int, errno string, step int) bool {
 		if o.clause == "" {
 			return false
